@@ -238,8 +238,12 @@ def gen_location(rng, n, tier="quick"):
                 else:
                     w = dt_in if dt_in.tzinfo is not None else dt_in.replace(
                         tzinfo=zoneinfo.ZoneInfo(state[2]))
+                    # compared field by field as UTC: `==` between zones is always False for a
+                    # wall time inside a repeated hour (PEP 495), which says nothing about the code
                     ok_dt = (isinstance(got_dt, datetime.datetime) and got_dt.tzinfo is not None
-                             and got_dt == w and got_dt.utcoffset() == datetime.timedelta(0))
+                             and got_dt.utcoffset() == datetime.timedelta(0)
+                             and got_dt.replace(tzinfo=None)
+                             == w.astimezone(datetime.timezone.utc).replace(tzinfo=None))
                 exp = "%s %s %s %s %s %s" % (head, N, N, N, N, N)
                 if not ok_dt:
                     exp += " Xdatetime:%s" % (got_dt.isoformat() if isinstance(got_dt, datetime.datetime) else got_dt)
